@@ -39,8 +39,9 @@ def family(path):
 
 def ok_payload_locals(body):
     out = []
+    retl = K.return_locals(body)
     for i, j, pl, rv, s in K.aggregates(body, "core::result::Result"):
-        if rv["variant"] == "Ok" and pl["l"] == 0:
+        if rv["variant"] == "Ok" and pl["l"] in retl and not pl["p"]:
             out.append((i, rv["ops"][0], s["span"]))
     return out
 
